@@ -95,9 +95,26 @@ func parseFrames(s string, named bool) ([]Frame, error) {
 	return frames, nil
 }
 
-// RunProgram runs src on a fresh runtime with the given trace limit.
-// named: compile it under ScriptName first (route "script"); otherwise Run(src).
-func RunProgram(src string, tlimit int, named bool) (obs Obs, err error) {
+// Routes by which a program reaches a runtime.  "named": compiled under ScriptName on a fresh
+// runtime; "plain": Run(text) on a fresh runtime; the copy routes compile and run it, under
+// ScriptName, on a runtime made by Otto.Copy(): of a fresh runtime, of a runtime that has already
+// run a script (which raised, caught and constructed errors), and of such a copy again.
+var Routes = []string{"named", "plain", "copy", "copy-used", "copy-copy"}
+
+// RunProgram runs src with the given trace limit (named: route "named", else "plain").
+func RunProgram(src string, tlimit int, named bool) (Obs, error) {
+	if named {
+		return RunRoute(src, tlimit, "named")
+	}
+	return RunRoute(src, tlimit, "plain")
+}
+
+// warmUp is what the "used" runtime ran before it was copied.
+const warmUp = `(function () { try { null.x } catch (e) { } try { nope } catch (e) { } try { [].length = -1 } catch (e) { }
+ try { eval("var = ;") } catch (e) { } return [new TypeError("t"), new RangeError("r"), new ReferenceError("f"), new SyntaxError("s")].length })()`
+
+// RunRoute runs src by the given route.
+func RunRoute(src string, tlimit int, route string) (obs Obs, err error) {
 	type res struct {
 		o Obs
 		e error
@@ -112,7 +129,7 @@ func RunProgram(src string, tlimit int, named bool) (obs Obs, err error) {
 			}
 			ch <- res{o, e}
 		}()
-		o, e = runProgram(src, tlimit, named)
+		o, e = runProgram(src, tlimit, route)
 	}()
 	select {
 	case r := <-ch:
@@ -153,9 +170,23 @@ func newVM(log *[][]any, tlimit int) *otto.Otto {
 	return vm
 }
 
-func runProgram(src string, tlimit int, named bool) (Obs, error) {
+func runProgram(src string, tlimit int, route string) (Obs, error) {
 	var log [][]any
 	vm := newVM(&log, tlimit)
+	named := route != "plain"
+	switch route {
+	case "copy":
+		vm = vm.Copy()
+	case "copy-used", "copy-copy":
+		if _, werr := vm.Run(warmUp); werr != nil {
+			return Obs{}, fmt.Errorf("warm-up script failed: %v", werr)
+		}
+		vm = vm.Copy()
+		if route == "copy-copy" {
+			vm = vm.Copy()
+		}
+		log = nil
+	}
 	var v otto.Value
 	var err error
 	if named {
@@ -221,6 +252,14 @@ func ParsePosition(route, src string) (pos SyntaxObs, msg string, err error) {
 }
 
 func init() {
+	// Go-side witness of D19_error_text_missing_name_static
+	core.GoWitnesses["c19_missing_name_text"] = func() (string, error) {
+		_, err := otto.New().Run(`delete TypeError.prototype.name; delete Error.prototype.name; throw new TypeError("abc");`)
+		if err == nil {
+			return "", fmt.Errorf("no error returned")
+		}
+		return err.Error(), nil
+	}
 	// Go-side witness of D19_internal_error_text_static_name
 	core.GoWitnesses["c19_internal_error_text"] = func() (string, error) {
 		_, err := otto.New().Run(`TypeError.prototype.name = "Zed"; var x = 1; x();`)
